@@ -47,7 +47,7 @@ pub fn run(cfg: &RunCfg) -> Ctx {
         all.floor(&format!("req.enc.{}", e.name()), 5);
         all.floor(&format!("resp.enc.{}", e.name()), 5);
     }
-    for k in ["outcome.ok", "outcome.handler_error", "outcome.source_error_mid_stream", "outcome.encode_failure", "resp.trailers_only", "resp.trailers_block", "req.streaming_body"] {
+    for k in ["outcome.ok", "outcome.handler_error", "outcome.source_error_mid_stream", "outcome.encode_failure", "outcome.client_encode_failure", "resp.trailers_only", "resp.trailers_block", "req.streaming_body"] {
         all.floor(k, 5);
     }
     all
@@ -114,7 +114,7 @@ fn case(rng: &mut Rng, ctx: &mut Ctx, idx: u64) {
     let c_send: Option<Enc> = if rng.bool() { Some(*rng.pick(Enc::compressed())) } else { None };
     let s_send: Option<Enc> = if rng.bool() { Some(*rng.pick(Enc::compressed())) } else { None };
     // outcome
-    let outcome = *rng.pick(&["ok", "ok", "handler_error", "source_error_mid_stream", "encode_failure"]);
+    let outcome = *rng.pick(&["ok", "ok", "handler_error", "source_error_mid_stream", "encode_failure", "client_encode_failure"]);
     let mut script = gen_script(rng, shape, false);
     script.end = None;
     script.fail_up_front = false;
@@ -149,7 +149,21 @@ fn case(rng: &mut Rng, ctx: &mut Ctx, idx: u64) {
     }
     let id = format!("w{}", idx);
     let nreq = if matches!(shape, Shape::ClientStream | Shape::Bidi) { rng.urange(0, 4) } else { 1 };
-    let req_msgs: Vec<Msg> = (0..nreq).map(|i| gen_msg(rng, i)).collect();
+    let mut req_msgs: Vec<Msg> = (0..nreq).map(|i| gen_msg(rng, i)).collect();
+    let mut client_limit: Option<usize> = None;
+    if outcome == "client_encode_failure" {
+        // a request message over the client's own encoding limit, possibly after smaller ones
+        client_limit = Some(2000);
+        req_msgs.retain(|m| m.data.len() < 1500);
+        let big = Msg { data: rng.bytes(6000), seq: 98, tag: "bigreq".into() };
+        if matches!(shape, Shape::ClientStream | Shape::Bidi) {
+            let at = rng.usize_below(req_msgs.len() + 1);
+            req_msgs.insert(at, big);
+        } else {
+            req_msgs = vec![big];
+        }
+    }
+    let nreq = req_msgs.len();
     let spec = CallSpec { id: id.clone(), shape, req_msgs: req_msgs.clone(), req_meta: gen_meta(rng, 3, false), req_pend: (0..nreq + 1).map(|_| rng.below(2) as u8).collect(), req_gaps_ms: vec![], timeout: None };
     let case_json = json!({"shape": format!("{:?}", shape), "client_send": c_send.map(|e| e.name()), "server_send": s_send.map(|e| e.name()), "outcome": outcome,
         "response_msg_sizes": script.msgs.iter().map(|m| m.data.len()).collect::<Vec<_>>(), "request_msgs": nreq, "server_encode_limit": server_limit});
@@ -177,6 +191,9 @@ fn case(rng: &mut Rng, ctx: &mut Ctx, idx: u64) {
     let mut client = VerifClient::new(lb);
     if let Some(e) = c_send {
         client = client.send_compressed(e.tonic().unwrap());
+    }
+    if let Some(l) = client_limit {
+        client = client.max_encoding_message_size(l);
     }
     for e in Enc::compressed() {
         client = client.accept_compressed(e.tonic().unwrap());
@@ -223,7 +240,12 @@ fn case(rng: &mut Rng, ctx: &mut Ctx, idx: u64) {
         ctx.violation("request-encoding-unknown", format!("{:?}", req_enc_hdr));
     }
     let req_body = qbtap.lock().unwrap().clone();
-    let want_req: Vec<Msg> = if matches!(shape, Shape::ClientStream | Shape::Bidi) { req_msgs.clone() } else { vec![req_msgs[0].clone()] };
+    let mut want_req: Vec<Msg> = if matches!(shape, Shape::ClientStream | Shape::Bidi) { req_msgs.clone() } else { vec![req_msgs[0].clone()] };
+    if outcome == "client_encode_failure" {
+        // the oversized message and everything after it never reach the wire
+        let upto = want_req.iter().position(|m| m.tag == "bigreq").unwrap_or(want_req.len());
+        want_req.truncate(upto);
+    }
     // a server that ends the call without draining a streaming request never pulls the rest of it
     let req_prefix_ok = matches!(shape, Shape::ClientStream | Shape::Bidi) && outcome != "ok";
     for (d, w) in judge_body(&req_body, req_enc, &want_req, req_prefix_ok) {
@@ -231,6 +253,12 @@ fn case(rng: &mut Rng, ctx: &mut Ctx, idx: u64) {
     }
     if !qttap.lock().unwrap().is_empty() {
         ctx.violation("request-trailers", "the client request body carried trailers".into());
+    }
+    if outcome == "client_encode_failure" {
+        // the call fails locally; whatever the server answers to the aborted request is not under test
+        ctx.fingerprint(format!("wire|{:?}|{}|creq={}|n{}", shape, outcome, c_send.map(|e| e.name()).unwrap_or("-"), nreq.min(2)), true);
+        ctx.sample(case_json);
+        return;
     }
     // ---------------- response on the wire
     let resp_parts = rtap.lock().unwrap();
